@@ -495,7 +495,7 @@ PROPS.update({
                          {"name": "hyb-big", "args": ["cases=2000", "maxops=40", "big=1"]},
                          {"name": "blk-overload", "domain": "blk", "args": ["cases=2000", "maxops=80", "overload=1"]},
                          {"name": "blk-reinsertion", "domain": "blk", "args": ["cases=1000", "maxops=160", "overload=1", "reins=1"]},
-                         {"name": "blk-blobreuse", "domain": "blk", "args": ["cases=40", "blobreuse=1"]},
+                         {"name": "blk-blobreuse", "domain": "blk", "args": ["cases=10", "blobreuse=1"]},
                          {"name": "hyb-inflight", "args": ["cases=120", "inflight=1"]}],
         },
         "nontrivial": r"ret=v:\d+:\d+:(disk|memory)",
@@ -583,7 +583,7 @@ PROPS.update({
             "quick": [{"name": "lay-unit", "args": ["cases=400", "maxops=12"]},
                       {"name": "blk-blobreuse", "domain": "blk", "args": ["cases=2", "blobreuse=1"]}],
             "thorough": [{"name": "lay-unit", "args": ["cases=12000", "maxops=20"]},
-                         {"name": "blk-blobreuse", "domain": "blk", "args": ["cases=40", "blobreuse=1"]}],
+                         {"name": "blk-blobreuse", "domain": "blk", "args": ["cases=10", "blobreuse=1"]}],
         },
         "nontrivial": r"nblocks=([2-9]|\d\d)|op=reopen",
         "rule": "the real Splitter::split with its SplitCtx carried across 1-20 batches per case, driven with synthetic entry "
